@@ -1,6 +1,9 @@
 import CogentModel.Model.PhyloTree
 import CogentModel.Spec.PhyloSplits
 import CogentModel.Proofs.PhyloReroot
+import CogentModel.Proofs.PhyloUnrooted
+import CogentModel.Proofs.PhyloSorted
+import CogentModel.Proofs.PhyloOps
 /-! # C09 — property theorems (tree transformations preserve tips, topology and path lengths)
 
 `PTree K`, `rerootAt`, `unrooted`, `sorted`, `getSubTree`, … : `Model/PhyloTree.lean`
@@ -41,5 +44,91 @@ example : rerootAt (K := Int)
                     .node "c" (some 4) [], .node "d" (some 5) []]) [0, 1]
   = some (.node "" none [.node "b" (some 2) [], .node "e" (some 1) [],
       .node "y" (some 7) [.node "a" (some 1) [], .node "x" (some 3) [.node "c" (some 4) [], .node "d" (some 5) []]]]) := by rfl
+
+/-! ## sorted, copy, histories -/
+
+/-- `sorted` (any sort order) keeps the tips … -/
+theorem sorted_preserves_tips (t : PTree K) (order : List String) :
+    (tips (sorted t order)).Perm (tips t) :=
+  (sorted_ok t order).2.2.1
+
+/-- … and the split multiset (for every reference tip set `T`), hence the unrooted topology -/
+theorem sorted_preserves_splits (t : PTree K) (order : List String) (T : List String) :
+    SplitsEquiv T (splits t) (splits (sorted t order)) :=
+  (sorted_ok t order).2.2.2 T
+
+/-- … and every path length. -/
+theorem sorted_preserves_dist [AddCommMonoid K] (d : K) (t : PTree K) (order : List String)
+    (a b : String) (ha : a ∈ tips t) (hb : b ∈ tips t) :
+    distSpec d a b (sorted t order) = distSpec d a b t :=
+  dist_of_splitsEquiv d (tips t) t _ (sorted_preserves_splits t order (tips t)) a b ha hb
+
+example : tips (sorted (K := Int) (.node "" none [.node "x" (some 3) [.node "d" (some 1) [], .node "b" (some 2) []],
+    .node "c" (some 4) [], .node "a" (some 5) []]) []) = ["a", "b", "d", "c"] := by decide +kernel
+
+/-- Compositions: any history of re-rootings (at a node / beside a tip / the re-rooting step of
+midpoint rooting), sortings and copies keeps the tip set, the split multiset and hence all
+path lengths — by induction over the history, for every tree whose root has ≥ 2 children.
+(`copy`/`deepcopy` are the identity in the value model: that they, and every other operation,
+leave the *Python object* they are called on unmodified is checked on the implementation by
+deep snapshots — harness `spec_check`; `root_at_midpoint` fails that check.) -/
+theorem history_preserves_tips_splits (ops : List TOp) (t r : PTree K) (h : applyOps t ops = some r)
+    (hdeg : 2 ≤ t.children.length) (hnd : (tips t).Nodup) :
+    (tips r).Perm (tips t) ∧ SplitsEquiv (tips t) (splits t) (splits r) :=
+  applyOps_spec ops t r h hdeg hnd
+
+theorem history_preserves_dist [AddCommMonoid K] (d : K) (ops : List TOp) (t r : PTree K)
+    (h : applyOps t ops = some r) (hdeg : 2 ≤ t.children.length) (hnd : (tips t).Nodup)
+    (a b : String) (ha : a ∈ tips t) (hb : b ∈ tips t) :
+    distSpec d a b r = distSpec d a b t :=
+  dist_of_splitsEquiv d (tips t) t r (applyOps_spec ops t r h hdeg hnd).2 a b ha hb
+
+example : (applyOps (K := Int)
+    (.node "" none [.node "x" (some 3) [.node "a" (some 1) [], .node "b" (some 2) []], .node "c" (some 4) [], .node "d" (some 5) []])
+    [.reroot [0], .sorted ["d"], .copy, .reroot [0]]).isSome = true := by decide +kernel
+
+/-! ## unrooted -/
+
+/-- `unrooted` keeps the tips, in order — for every tree. -/
+theorem unrooted_preserves_tips [Add K] (t : PTree K) : tips (unrooted t) = tips t :=
+  tips_unrooted t
+
+/- FULL STATEMENT (not proved, false for the code as written):
+   theorem unrooted_preserves_dist (t) (a b ∈ tips t) : distSpec d a b (unrooted t) = distSpec d a b t
+   The mirrored `unrooted` adds the removed stem edge's length to *every* child of the collapsed
+   clade (core/tree.py l.1575-1579), so pairs inside that clade get twice that length added.
+   Witness below; replayed on the real code by the harness (known finding
+   C09-unrooted-inflates-collapsed-clade). -/
+
+/-- the defect, on the smallest witness `((a:1,b:2):3,(c:4,d:5):6)`: d(a,b) = 3 becomes 9 -/
+theorem unrooted_dist_counter :
+    let t : PTree Int := .node "" none [.node "" (some 3) [.node "a" (some 1) [], .node "b" (some 2) []],
+                                         .node "" (some 6) [.node "c" (some 4) [], .node "d" (some 5) []]]
+    distSpec 1 "a" "b" t = 3 ∧ distSpec 1 "a" "b" (unrooted t) = 9 ∧ (tips t).Nodup := by
+  decide +kernel
+
+/-- `unrooted` does preserve all distances when it has nothing to collapse: the root already
+has ≥ 3 children, or all its children are tips (then the result is the same tree). -/
+theorem unrooted_preserves_dist_partial [AddCommMonoid K] (d : K) (t : PTree K)
+    (h : 3 ≤ t.children.length ∨ ∀ c ∈ t.children, c.children = []) (a b : String) :
+    distSpec d a b (unrooted t) = distSpec d a b t := by
+  rw [unrooted_noop t h]
+
+example : (3 : Nat) ≤ (PTree.node (K := Int) "" none [.node "a" (some 1) [], .node "b" (some 2) [],
+    .node "x" (some 1) [.node "c" (some 4) [], .node "d" (some 5) []]]).children.length := by decide
+
+/-- The proposed repair (`fixes/C09-unrooted-sister-edge.patch`, model `unrootedFixed`: the
+removed edge's length goes to the sister edge only) preserves every tip-to-tip distance, for
+every tree with distinct tips whose root children carry lengths. -/
+theorem unrooted_fixed_preserves_dist [AddCommMonoid K] (d : K) (t : PTree K) (hnd : (tips t).Nodup)
+    (hlen : ∀ c ∈ t.children, ∃ l, c.len = some l) (a b : String) (ha : a ∈ tips t) (hb : b ∈ tips t) :
+    distSpec d a b (unrootedFixed t) = distSpec d a b t :=
+  unrootedFixed_dist d t hnd hlen a b ha hb
+
+example :
+    let t : PTree Int := .node "" none [.node "" (some 3) [.node "a" (some 1) [], .node "b" (some 2) []],
+                                         .node "" (some 6) [.node "c" (some 4) [], .node "d" (some 5) []]]
+    distSpec 1 "a" "b" (unrootedFixed t) = 3 ∧ distSpec 1 "a" "c" (unrootedFixed t) = 14 ∧
+      distSpec 1 "a" "c" t = 14 := by decide +kernel
 
 end CogentModel.C09
